@@ -4,6 +4,9 @@ import json, os, subprocess, sys
 ROOT = os.path.dirname(os.path.dirname(os.path.abspath(__file__)))
 
 CLAIMED = {
+ "C06": ("exploration", "property-based differential testing (proptest) of the three API forms of 26 entry points on generated operand states + single-field corruption (fault) injection with a refusal oracle",
+         "Generated-input search: operand states (sizes, levels, representations, three schemes) are reached by random build sequences; each of 26 evaluator entry points is executed through its in-place, destination and value-returning forms on identical operands. All forms must agree word for word (or all refuse), read-only operands must be unchanged, results must be valid and accepted by a follow-up operation; then one field of one operand is corrupted (15 ciphertext, 6 plaintext, 2 key corruptions) and every form must refuse. Two genuine validation gaps were found and fixed.",
+         "Trusted: ValCheck::is_valid_for as the definition of validity for the follow-up check; any panic is a refusal.", "DESIGN.md §6 C06"),
  "C05": ("exploration", "exhaustive enumeration of (source, target, API form) over small chains + property-based testing, every call under a termination deadline, against shadow message / factor / scale oracles",
          "Generated-input search: all (source level, target) pairs of chains with 1..4 (thorough 6) data levels, including key-level and unknown targets, through all 18 entry points of the three schemes, plus random parameter sets and sizes 2..4. Every call runs on a worker thread under a 20 s deadline because termination is part of the statement (the pinned rescale_to defect was found this way and fixed). Level, BGV correction factor, CKKS scale (bit-exact / 4 ulp), message and NTT-plaintext equality are checked; requests that must be refused must panic.",
          "Trusted: noise model DESIGN.md §4; the deadline (>= 10^5 x the normal duration) is the only wall-clock oracle in the framework; rescale_to(current level) on the last level may either refuse or return the input (both accepted).", "DESIGN.md §6 C05"),
